@@ -54,6 +54,25 @@ def d_hostile(g, tier):
     return ops
 
 
+def d_known(g, tier):
+    """templates made only of fields the library knows (C17: must behave exactly as the default build)"""
+    ops = []
+    for i in range(60 if tier == "quick" else 600):
+        ops += gen.conformant_session(g, npk=g.r.choice([4, 8]), unknown=False, multi_tmpl=False)
+    return ops
+
+
+def d_scale(g, tier):
+    return gen.scale_sessions(g, tier)
+
+
+def d_rounds(g, tier):
+    ops = []
+    for i in range(100 if tier == "quick" else 1500):
+        ops += gen.rounds_session(g)
+    return ops
+
+
 def d_protocols(g, tier):
     return gen.protocols_session(g)
 
@@ -61,6 +80,8 @@ def d_protocols(g, tier):
 MODELS = {
     # name: (module, quick cfg, thorough cfg, parsers, quick vector limit)
     "framing": ("MC_Framing.tla", "MC_Framing_quick.cfg", "MC_Framing_thorough.cfg", ["A"], 20000),
+    "cache": ("MC_Cache.tla", "MC_Cache_quick.cfg", "MC_Cache_thorough.cfg", ["A", "B"], 7000),
+    "decode": ("MC_Decode.tla", "MC_Decode_quick.cfg", "MC_Decode_thorough.cfg", ["A"], 8000),
 }
 
 
@@ -99,28 +120,31 @@ def vector_ops(name, tier, seed):
 
 
 DRIVERS = {"corpus": d_corpus, "conformant": d_conformant, "mutate": d_mutate, "truncate": d_truncate,
-           "hostile": d_hostile, "protocols": d_protocols}
+           "hostile": d_hostile, "protocols": d_protocols, "rounds": d_rounds, "known": d_known, "scale": d_scale}
+
+LIGHT_DRIVERS = {"scale"}      # adversarial 64 KiB inputs: totality, accounting and cost only (Trace.tla, LIGHT=1)
 
 PROP_DRIVERS = {
-    "C01": ["corpus", "hostile", "mutate", "conformant"],
+    "C01": ["corpus", "hostile", "mutate", "conformant", "scale"],
+    "C15": ["corpus", "conformant", "hostile", "scale"],
     "C02": ["corpus", "conformant", "mutate", "truncate", "hostile"],
     "C03": ["corpus", "conformant", "protocols", "truncate"],
     "C04": ["corpus", "conformant"],
     "C05": ["corpus", "conformant"],
-    "C06": ["corpus", "conformant", "mutate"],
+    "C06": ["corpus", "conformant", "mutate", "rounds"],
     "C07": ["corpus", "conformant", "mutate"],
     "C08": ["corpus", "conformant", "mutate"],
     "C09": ["corpus", "conformant", "mutate"],
     "C10": ["corpus", "conformant", "mutate"],
-    "C11": ["corpus", "conformant"],
-    "C12": ["corpus", "mutate", "conformant"],
+    "C11": ["corpus", "conformant", "rounds"],
+    "C12": ["corpus", "mutate", "conformant", "rounds"],
     "C13": ["corpus", "conformant", "mutate"],
-    "C14": ["corpus", "truncate", "mutate"],
+    "C14": ["corpus", "truncate", "mutate", "rounds"],
 }
 
 
 # ----------------------------------------------------------------------------- driver runs (cached)
-def driver_run(name, tier, seed, puf=True):
+def driver_run(name, tier, seed, puf=True, keep_trace=False):
     """ops -> harness -> trace -> TLC findings; cached by the hash of everything it depends on"""
     binary = vf.build_harness(puf=puf)
     if binary is None:
@@ -140,8 +164,14 @@ def driver_run(name, tier, seed, puf=True):
     opsf = os.path.join(cdir, "ops.ndjson")
     trf = os.path.join(cdir, "trace.ndjson")
     vf.write_ops(opsf, ops)
-    info = vf.run_harness(binary, opsf, trf)
-    res = vf.validate(trf, cdir)
+    light = name in LIGHT_DRIVERS
+    info = vf.run_harness(binary, opsf, trf, timeout_ms=180000 if light else 20000,
+                          post="export1,common,json" if light else "export,common,json")
+    env_extra = {} if puf else {"PUF": "0"}
+    if light:
+        env_extra["LIGHT"] = "1"
+    res = vf.validate(trf, cdir, env_extra=env_extra or None)
+    res["trace"] = trf
     res["driver"] = name
     res["calls"] = sum(1 for o in ops if o.get("op") == "call")
     res["sessions"] = sum(1 for o in ops if o.get("op") == "reset")
@@ -150,7 +180,7 @@ def driver_run(name, tier, seed, puf=True):
     res["samples"] = [o for o in ops if o.get("op") == "call"][:2]
     log("driver %s: %d calls, %d events, %d findings, %.1fs" % (name, res["calls"], res["events"], len(res["findings"]), res["wall_s"]))
     # keep the cache small: drop shards and the trace, keep ops (replay) and results
-    for p in glob.glob(os.path.join(cdir, "shard-*.ndjson")) + [trf]:
+    for p in glob.glob(os.path.join(cdir, "shard-*.ndjson")) + ([] if keep_trace else [trf]):
         try:
             os.remove(p)
         except OSError:
@@ -224,11 +254,50 @@ def emit(prop, tier, seed, t0, runs, extra_findings=(), level="model_checking", 
 
 
 PROP_MODELS = {
-    "C01": ["framing"], "C02": ["framing"], "C03": ["framing"], "C08": ["framing"], "C11": ["framing"], "C12": ["framing"], "C14": ["framing"],
+    "C01": ["framing", "cache"], "C02": ["framing"], "C03": ["framing"], "C04": ["decode"], "C05": ["decode"],
+    "C06": ["cache"], "C07": ["cache"], "C08": ["framing"], "C09": ["decode"], "C10": ["decode"],
+    "C11": ["framing", "cache"], "C12": ["framing", "cache"], "C13": ["decode"], "C14": ["framing", "cache"],
 }
 
 
+def check_c17(tier, seed, t0):
+    """feature-off build: compiles; known-only streams behave exactly as in the default build (TraceEq.tla);
+    a record with an unknown field is not reported as decoded (Trace.tla with PUF=0)"""
+    extra = []
+    if vf.build_harness(puf=True) is None:
+        raise vf.ToolError("default harness build failed")
+    off = vf.build_harness(puf=False)
+    if off is None:
+        extra.append({"line": 0, "sig": ["C17", "build", "feature-off", ""], "driver": "build",
+                      "replay_ops": [{"op": "note", "what": "cargo build --no-default-features failed"}]})
+        return emit("C17", tier, seed, t0, [], extra_findings=extra, level="other",
+                    extra_cov={"explanation": "the feature-off build failed, so no trace could be produced", "evaluations": 1, "distinct_nontrivial": 2})
+    on = driver_run("known", tier, seed, puf=True, keep_trace=True)
+    offr = driver_run("known", tier, seed, puf=False, keep_trace=True)
+    wd = os.path.join(vf.OUT, "c17eq")
+    shutil.rmtree(wd, ignore_errors=True)
+    if not (os.path.exists(on["trace"]) and os.path.exists(offr["trace"])):
+        # cached results whose traces were pruned: recompute
+        shutil.rmtree(os.path.dirname(on["trace"]), ignore_errors=True)
+        shutil.rmtree(os.path.dirname(offr["trace"]), ignore_errors=True)
+        on = driver_run("known", tier, seed, puf=True, keep_trace=True)
+        offr = driver_run("known", tier, seed, puf=False, keep_trace=True)
+    eq = vf.tlc_trace(on["trace"], wd, cfg="TraceEq.cfg", module="TraceEq.tla", env_extra={"TRACE2": offr["trace"]})
+    with open(offr["trace"]) as f:
+        lines = f.readlines()
+    for fd in eq["findings"]:
+        fd["driver"] = "known(feature-off vs default)"
+        fd["replay_ops"] = vf.session_ops(lines, fd["line"])
+        extra.append(fd)
+    unk = driver_run("conformant", tier, seed, puf=False)
+    cov = {"events_compared_between_builds": eq["states"],
+           "feature_off_sets_with_unknown_fields_seen": "see drivers.conformant"}
+    return emit("C17", tier, seed, t0, [offr, unk], extra_findings=extra, extra_cov=cov)
+
+
 def check(prop, tier, seed, t0):
+    if prop == "C17":
+        return check_c17(tier, seed, t0)
     if prop not in PROP_DRIVERS:
         raise vf.ToolError("no pipeline for " + prop)
     models = [model_run(m, tier, seed) for m in PROP_MODELS.get(prop, [])]
